@@ -84,11 +84,11 @@ static int client_without_ca(const char *label, psProtocolVersion_t ver,
     return ok;
 }
 
-int main(int argc, char **argv)
+int main(void)
 {
-    int v = 0;
+    int v = 0, controlsFailed = 0;
 
-    g_trace = (argc > 1);
+    g_trace = (getenv("TRACE") != NULL);
     if (matrixSslOpen() < 0)
     {
         return 2;
@@ -121,11 +121,28 @@ int main(int argc, char **argv)
             "completed the handshake with a self-signed server certificate\n");
         v++;
     }
+    controlsFailed += !control_connect("TLS 1.3 client WITH the right trust "
+            "anchor, honest chain", CERTDIR "/d1_root.pem",
+            CERTDIR "/ok_chain.pem", CERTDIR "/ok_leaf.key", v_tls_1_3, NULL);
+    if (control_connect("TLS 1.3 client with a trust anchor, self-signed "
+            "server (must be refused; the line below should say FAILED)",
+            CERTDIR "/d1_root.pem", CERTDIR "/d3_selfsigned.pem",
+            CERTDIR "/d3_selfsigned.key", v_tls_1_3, NULL))
+    {
+        printf("VIOLATION: self-signed server accepted although a different "
+            "trust anchor is loaded\n");
+        v++;
+    }
     matrixSslClose();
+    if (controlsFailed)
+    {
+        printf("CONTROL FAILED: an honest chain was refused\n");
+        return 3;
+    }
     if (v)
     {
         return 1;
     }
-    printf("no violation\n");
+    printf("OK: no violation\n");
     return 0;
 }
